@@ -21,10 +21,12 @@ CompleteF(t, st) ==
              s2 == IF cfg.resetOC THEN ResetF(t, s1) ELSE s1
          IN IF cfg.disableOC THEN DisableF(s2) ELSE s2
 Sign == IF cfg.dir = "down" THEN -1 ELSE 1
+\* "its interval in its direction": the configured count_interval may carry either sign, the direction decides
+Mag == IF cfg.ival < 0 THEN -cfg.ival ELSE cfg.ival
 GoalReached(v) == cfg.goal # NoGoal /\ (IF cfg.dir = "down" THEN v <= cfg.goal ELSE v >= cfg.goal)
 CounterHit(t, st) ==
     IF ~st.enabled \/ st.ignoreUntil # 0 THEN st
-    ELSE LET v == st.value + Sign * cfg.ival
+    ELSE LET v == st.value + Sign * Mag
              s1 == Emit([st EXCEPT !.value = v], "hit", v)
              s2 == IF GoalReached(v) THEN CompleteF(t, s1) ELSE s1
          IN IF cfg.window > 0 THEN [s2 EXCEPT !.ignoreUntil = t + cfg.window] ELSE s2
@@ -79,13 +81,13 @@ NCompl(st) == Cardinality({i \in DOMAIN st.out : st.out[i][1] = "complete"})
 \* outside the window), posts exactly one hit event then, and changes nothing otherwise
 CounterHitExact == [][ (act'.op = "hit" /\ cfg.kind = "counter") =>
     IF s.enabled /\ s.ignoreUntil = 0
-    THEN NHits(s') = 1 /\ (s'.value = s.value + Sign * cfg.ival \/ (Has(s', "complete") /\ cfg.resetOC /\ s'.value = cfg.start))
+    THEN NHits(s') = 1 /\ (s'.value = s.value + Sign * Mag \/ (Has(s', "complete") /\ cfg.resetOC /\ s'.value = cfg.start))
     ELSE s' = Clr(s) ]_vars
 HitsWhileDisabledInert == [][ (act'.op = "hit" /\ ~s.enabled) => s' = Clr(s) ]_vars
 \* at most one completion event per step, only from a not-yet-completed block, and exactly when the goal is reached
 CompleteOnce == [][ NCompl(s') <= 1 /\ (Has(s', "complete") => ~s.completed) ]_vars
 CompleteWhenGoal == [][ (act'.op = "hit" /\ cfg.kind = "counter" /\ s.enabled /\ s.ignoreUntil = 0 /\ ~s.completed)
-                          => (Has(s', "complete") <=> GoalReached(s.value + Sign * cfg.ival)) ]_vars
+                          => (Has(s', "complete") <=> GoalReached(s.value + Sign * Mag)) ]_vars
 ThenResetOrDisable == [][ Has(s', "complete") => /\ (cfg.disableOC => ~s'.enabled)
                                                  /\ (cfg.resetOC => ~s'.completed /\ (cfg.kind = "accrual" => s'.steps = {})) ]_vars
 SequenceStrict == [][ (act'.op = "hit" /\ cfg.kind = "sequence") =>
